@@ -1,9 +1,10 @@
 #!/bin/bash
 # Runs every property's thorough check, one after the other (each uses all cores), and prints one line per property.
+# PROPS_LIST="C03 C19" restricts it to some properties.
 # In a `vp run --with-repo` snapshot: builds against $VP_RUN_REPO so that work in /repo does not disturb it.
 cd "$(dirname "$0")/.."
 [ -n "$VP_RUN_REPO" ] && export VERIF_REPO="$VP_RUN_REPO"
-for p in C01 C02 C03 C04 C05 C06 C07 C08 C09 C10 C11 C12 C13 C14 C15 C16 C17 C18 C19 C20; do
+for p in ${PROPS_LIST:-C01 C02 C03 C04 C05 C06 C07 C08 C09 C10 C11 C12 C13 C14 C15 C16 C17 C18 C19 C20}; do
   t0=$(date +%s)
   out=$(./check $p thorough 2>/tmp/thorough-$p.err | grep -v '^KNOWN-FINDING')
   echo "$(date +%H:%M) $p ($(( $(date +%s) - t0 ))s): $out"
